@@ -40,8 +40,11 @@ contract("AsyncJob.is_complete", kind="assumed",
          params=[("self", "Ref[AsyncJob]")], returns="bool",
          ensures=["result == self.g_done", "implies(old(self.g_done), self.g_done)",
                   "implies(result, not isnone(self.return_code))",
-                  "self.g_launched == old(self.g_launched) and self.g_canceled == old(self.g_canceled)"],
-         modifies=["self.g_done", "self.return_code"],
+                  "self.g_launched == old(self.g_launched) and self.g_canceled == old(self.g_canceled)",
+                  # only a node-level job writes a result row when it completes; a batch handle never does
+                  "implies(self.g_is_batch, ghost.collected == old(ghost.collected) and ghost.collected_failed == old(ghost.collected_failed))"],
+         raises={"ExecutionError": {"ensures": ["self.g_done == old(self.g_done)", "ghost.collected == old(ghost.collected) and ghost.collected_failed == old(ghost.collected_failed)"]}},
+         modifies=["self.g_done", "self.return_code", "ghost.collected", "ghost.collected_failed"],
          note="AsyncJobInterface.is_complete: completion is sticky; a complete job has a return code")
 contract("AsyncJob.run", kind="assumed",
          params=[("self", "Ref[AsyncJob]")], returns="Enum[Status]",
@@ -72,6 +75,7 @@ contract("JobQueue.outstanding_jobs", file=F, inline=True, params=[("self", "Ref
 define("nout", ["q"], "card(keys(q._outstanding_jobs))")
 # capacity invariant (C06)
 define("Inv_cap", ["q"], "nout(q) <= q._queue_depth")
+define("BATCH_ONLY", ["q"], "len(q._queued_jobs) == 0 and forall(x, q._outstanding_jobs, q._outstanding_jobs[x].g_is_batch)")
 # every outstanding entry of a submitter's queue is an allocated batch with a scheduler id
 define("Inv_ids", ["q"], "forall(x, q._outstanding_jobs, allocated(q._outstanding_jobs[x]) and q._outstanding_jobs[x].g_is_batch and not isnone(q._outstanding_jobs[x].job_id))")
 
@@ -146,9 +150,12 @@ contract("JobQueue.process_queue", file=F,
              "and self._outstanding_jobs[x] == old(self._outstanding_jobs)[x]))",
              "implies(old(len(self._queued_jobs)) == 0, forall(x, old(self._outstanding_jobs), x in self._outstanding_jobs or old(self._outstanding_jobs)[x].g_done))",
              "implies(old(len(self._queued_jobs)) == 0, nout(self) <= old(nout(self)))",
+             "implies(old(BATCH_ONLY(self)), ghost.collected == old(ghost.collected) and ghost.collected_failed == old(ghost.collected_failed))",
          ],
          raises={"ExecutionError": {"ensures": ["self._outstanding_jobs == old(self._outstanding_jobs) and self._queued_jobs == old(self._queued_jobs)",
-                                                "ghost.runs == old(ghost.runs)"], "frame": False},
+                                                "ghost.runs == old(ghost.runs)",
+                                                "implies(old(BATCH_ONLY(self)), ghost.collected == old(ghost.collected) and ghost.collected_failed == old(ghost.collected_failed))"],
+                                    "frame": False},
                  # any other failure while polling (C11): with an empty queue nothing is ever started
                  "AnyException": {"ensures": ["implies(old(len(self._queued_jobs)) == 0, ghost.runs == old(ghost.runs))"], "frame": False}},
          modifies=["self._outstanding_jobs", "self._queued_jobs", "self._num_jobs", "self._num_completed", "self._last_monitor_time", "ghost.runs",
